@@ -1,6 +1,8 @@
 module verifharness
 
-go 1.22
+go 1.23
+
+toolchain go1.23.5
 
 require (
 	cosmossdk.io/api v0.3.1
@@ -200,9 +202,11 @@ replace (
 	github.com/syndtr/goleveldb => github.com/syndtr/goleveldb v1.0.1-0.20210819022825-2ae1ddf74ef7
 	// stick with compatible version or x/exp in v0.47.x line
 	golang.org/x/exp => golang.org/x/exp v0.0.0-20230711153332-06a737ee72cb
-	// stick with compatible version of rapid in v0.47.x line
+// stick with compatible version of rapid in v0.47.x line
 )
 
 require github.com/medibloc/panacea-core/v2 v2.0.0-00010101000000-000000000000
+
 require pgregory.net/rapid v1.3.0
+
 replace github.com/medibloc/panacea-core/v2 => /repo
